@@ -620,6 +620,9 @@ func (c *fsClient) Call(x *Exec, st *State, fr *Frame, site ssa.CallInstruction,
 	pos := site.Pos()
 	ret := func(v *Term) (bool, []CallOut) { return true, []CallOut{{St: st, Val: v}} }
 	name := ""
+	if fnTerm.Op == "builtin" {
+		return false, nil
+	}
 	if callee != nil {
 		name = funcKey(callee)
 	} else if fnTerm.Op == "method" {
